@@ -178,3 +178,45 @@ Example C07_environ_inhabited :
                 e_content_length := Some [120]; e_transfer_encoding := None; e_content_type := Some [97; 59; 42; 61; 98]; e_cache_control := Some [42; 61; 120] |} = true.
 Proof. vm_compute. reflexivity. Qed.
 Print Assumptions C07_environ_inhabited.
+
+(* ------------------------------------------------------------------ more Request attributes *)
+Theorem C07_total_request_full_path : forall e, forallb (fun c => c <? 256) (m_query e) = true -> exists t, request_full_path e = Ok t.
+Proof. exact request_full_path_total. Qed.
+Print Assumptions C07_total_request_full_path.
+Theorem C07_total_request_access_route : forall e, exists l, request_access_route e = Ok l.
+Proof. exact request_access_route_total. Qed.
+Print Assumptions C07_total_request_access_route.
+(* accept_mimetypes / accept_charsets / accept_encodings / accept_languages share this parse loop; the class-specific
+   sorting, membership and best_match are C17's model (C17_optimal, C17_quality, C17_order, C17_to_header_roundtrip) *)
+Theorem C07_total_request_accept : forall e,
+  (exists l, request_accept (m_accept e) = Ok l) /\ (exists l, request_accept (m_accept_charset e) = Ok l)
+  /\ (exists l, request_accept (m_accept_encoding e) = Ok l) /\ (exists l, request_accept (m_accept_language e) = Ok l).
+Proof. exact (fun e => conj (request_accept_total _) (conj (request_accept_total _) (conj (request_accept_total _) (request_accept_total _)))). Qed.
+Print Assumptions C07_total_request_accept.
+(* if_range and the date-typed headers over the email.utils contract (exception classes validated by the harness) *)
+Theorem C07_total_request_if_range : forall (D : Type) (parsedate : str -> res D),
+  (forall s e, parsedate s = Err e -> is_type_error e || is_value_error e || is_overflow_error e = true) ->
+  forall e, exists r, request_if_range parsedate e = Ok r.
+Proof. exact request_if_range_total. Qed.
+Print Assumptions C07_total_request_if_range.
+Theorem C07_total_request_dates : forall (D : Type) (parsedate : str -> res D),
+  (forall s e, parsedate s = Err e -> is_type_error e || is_value_error e || is_overflow_error e = true) ->
+  forall e, (exists o, request_date_header parsedate (m_date e) = Ok o)
+            /\ (exists o, request_date_header parsedate (m_if_modified_since e) = Ok o)
+            /\ (exists o, request_date_header parsedate (m_if_unmodified_since e) = Ok o).
+Proof. exact (fun D pd Hc e => conj (parse_date_over_total D pd Hc _) (conj (parse_date_over_total D pd Hc _) (parse_date_over_total D pd Hc _))). Qed.
+Print Assumptions C07_total_request_dates.
+(* Request.url / base_url / root_url / host_url: the port check of urlsplit on the host get_host returns: the two known
+   Host findings stay refuted, with the guard of C07_url_port_partial lifted to the request *)
+Theorem C07_request_url_port_refuted : exists e, request_url_port e = Err ValueError.
+Proof. exact (ex_intro _ _ request_url_port_refuted). Qed.
+Print Assumptions C07_request_url_port_refuted.
+Theorem C07_request_url_port_partial : forall e,
+  host_port_ok (get_host (u_scheme e) (u_host e) (u_server e)) = true -> exists p, request_url_port e = Ok p.
+Proof. exact request_url_port_partial. Qed.
+Print Assumptions C07_request_url_port_partial.
+Example C07_request_url_port_inhabited :
+  host_port_ok (get_host [104; 116; 116; 112] None (Some ([58; 58; 49], Some [56; 48; 56; 48]))) = false
+  /\ host_port_ok (get_host [104; 116; 116; 112] (Some [97; 46; 98; 58; 56; 48]) None) = true.
+Proof. split; vm_compute; reflexivity. Qed.
+Print Assumptions C07_request_url_port_inhabited.
